@@ -199,3 +199,8 @@ func VerifC07_ConcurrentDeliveriesKeepTheirBytes() {
 	}
 	verifrt.Reach("two-deliveries-done", len(st.conns[0].out.data) > 20 && len(st.conns[1].out.data) > 20)
 }
+
+// HTTP /pub stores exactly the uploaded bytes; an upload that ends before its declared length
+// (client went away: the body reads as io.ErrUnexpectedEOF) is never published truncated
+// (shared with C10).
+func VerifC07_HTTPPubBodyExact() { verifrt.Atomic(verifC10Pub) }
